@@ -185,6 +185,11 @@ Wave 3 (loops; groups `line` `fold` `text` -> Gen/BodiesLine.lean, BodiesFold.le
                'result': names}); `[E for a, b, _ in xs]` / `for i, (a, b, ..) in enumerate(xs)` over tuples, `xs[i]`, `t[k]`;
                nested loops with their own break (group tz); a local that is `False` or an int (`FalseOrInt`: Option Int) and
                `assert x is not False` on it, which IS evaluated (AssertionError).
+  wave 9       CLOSURES: a target `outer.inner` is a def directly in the body of a module-level def, bound once; its declared free
+               variables must be parameters of `outer` that nothing rebinds: they are parameters of the definition (`Target.free`).  A
+               function without a class whose first parameter is `self` (a property accessor) with self_type 'State:S'; `sibling(self)`
+               of a closure translated earlier rebinds `self`; bare `return` of a state; `raise TypeError(..)`; `x in self.<attr>` on a
+               declared sequence of str; one mutating method declared per arity (`'self.pop/1'`, `'self.pop/2'`) (group sedesc).
   parameters   the order of the generated parameters follows their first use in the source: apply the definitions BY NAME
                (`f (last_ack := ..) (snooze_until := ..)`), never positionally - two parameters of one type could
                otherwise change places together with the source and no proof or test would notice.
